@@ -33,7 +33,49 @@ import (
 const bucket = "b"
 
 // the key universe; kN in coq/check/C28.v
-var keys = []string{"a", "a/b", "ab", "a/b/c", "d/e", "d", "f", "g/h", "a/c"}
+var keys = []string{"a", "a/b", "ab", "a/b/c", "d/e", "d", "f", "g/h", "a/c",
+	// 9..: keys with the characters on which URL escaping variants differ (blank, '+', '&', '=' and the
+	// URL meta characters '%', '?', '#'); the gateway builds the filer path of a key in three ways:
+	// urlPathEscape (PutObject / GetObject / HeadObject / DeleteObject), the raw key over gRPC
+	// (CompleteMultipartUpload, DeleteMultipleObjects) and the raw key pasted into a URL (CopyObject,
+	// UploadPartCopy)
+	"x y", "x+y", "x%20y", "m&n=o", "t?u", "t", "v#w", "dir one/i+n", "q%zz"}
+
+// the keys the namespace kind runs over (keys that are path prefixes of each other)
+const nNamespaceKeys = 9
+
+// prefix-free keys with blank, '+', '&', '=' (no URL meta character: every route must agree on them)
+var blankKeys = []int{9, 10, 12, 16, 2, 6}
+
+// prefix-free keys including '%', '?', '#' (a copy whose source or destination has one: finding 7);
+// "x%20y" / "x y" and "t?u" / "t" collide when the raw key is parsed as a URL
+var metaKeys = []int{9, 10, 11, 12, 13, 14, 15, 16, 17}
+
+// encKey: a key as a client sends it in a request line or in X-Amz-Copy-Source: every byte outside
+// A-Za-z0-9-_.~/ percent-encoded (the AWS URI encoding; also what the gateway's encodePath computes
+// for the canonical request of a signed request)
+func encKey(k string) string {
+	var sb strings.Builder
+	for i := 0; i < len(k); i++ {
+		c := k[i]
+		switch {
+		case 'A' <= c && c <= 'Z', 'a' <= c && c <= 'z', '0' <= c && c <= '9', c == '-', c == '_', c == '.', c == '~', c == '/':
+			sb.WriteByte(c)
+		default:
+			fmt.Fprintf(&sb, "%%%02X", c)
+		}
+	}
+	return sb.String()
+}
+
+func xmlText(k string) string {
+	var sb strings.Builder
+	hx.Must(xml.EscapeText(&sb, []byte(k)))
+	return sb.String()
+}
+
+// hasURLMeta: raw_meta of the model
+func hasURLMeta(k string) bool { return strings.ContainsAny(k, "%?#") }
 
 // keys without any prefix relation among them (and none is an ancestor directory of another)
 var cleanKeys = []int{1, 2, 4, 6, 7, 8}
@@ -320,7 +362,7 @@ func projectBytes(b []byte) string { return hx.NList(project(b)) }
 // filer): ranges into a listing page cannot be described by the model, so such
 // requests are sent (and recorded) without a range
 func (rn *runner) objectHasListingPage(key string) bool {
-	r := rn.w.env.DoFiler("GET", "/buckets/"+bucket+"/"+key, nil)
+	r := rn.w.env.DoFiler("GET", "/buckets/"+bucket+"/"+encKey(key), nil)
 	return r.Status == 200 && hasListingPage(r.Body)
 }
 
@@ -370,7 +412,7 @@ func (rn *runner) uploadID(u int) string {
 
 func (rn *runner) upKey(u int) string {
 	if u < len(rn.upKeys) {
-		return keys[rn.upKeys[u]]
+		return encKey(keys[rn.upKeys[u]])
 	}
 	return "nokey"
 }
@@ -379,13 +421,13 @@ func (rn *runner) exec(o *op) string {
 	w := rn.w
 	switch o.kind {
 	case "Put":
-		return classify(w.s3("PUT", "/b/"+keys[o.key], nil, o.body()))
+		return classify(w.s3("PUT", "/b/"+encKey(keys[o.key]), nil, o.body()))
 	case "PutS":
-		path := "/b/" + keys[o.key]
+		path := "/b/" + encKey(keys[o.key])
 		hdr, body := streamingRequest(path, "", o.body(), o.cuts, o.tamper)
 		return classify(do(w.router2, "PUT", path, hdr, body))
 	case "Copy":
-		return classify(w.s3("PUT", "/b/"+keys[o.key], map[string]string{"X-Amz-Copy-Source": "/b/" + keys[o.src]}, nil))
+		return classify(w.s3("PUT", "/b/"+encKey(keys[o.key]), map[string]string{"X-Amz-Copy-Source": "/b/" + encKey(keys[o.src])}, nil))
 	case "Get":
 		var hdr map[string]string
 		if o.r.kind != "" && rn.objectHasListingPage(keys[o.key]) {
@@ -394,7 +436,7 @@ func (rn *runner) exec(o *op) string {
 		if h := rangeHeader(o.r); h != "" {
 			hdr = map[string]string{"Range": h}
 		}
-		r := w.s3("GET", "/b/"+keys[o.key], hdr, nil)
+		r := w.s3("GET", "/b/"+encKey(keys[o.key]), hdr, nil)
 		if r.status == 200 || r.status == 206 {
 			if len(r.body) > 0 {
 				rn.anyData = true
@@ -403,17 +445,17 @@ func (rn *runner) exec(o *op) string {
 		}
 		return classify(r)
 	case "Del":
-		return classify(w.s3("DELETE", "/b/"+keys[o.key], nil, nil))
+		return classify(w.s3("DELETE", "/b/"+encKey(keys[o.key]), nil, nil))
 	case "BatchDel":
 		var sb strings.Builder
 		sb.WriteString("<Delete>")
 		for _, k := range o.ks {
-			sb.WriteString("<Object><Key>" + keys[k] + "</Key></Object>")
+			sb.WriteString("<Object><Key>" + xmlText(keys[k]) + "</Key></Object>")
 		}
 		sb.WriteString("</Delete>")
 		return classify(w.s3("POST", "/b?delete", nil, []byte(sb.String())))
 	case "MpCreate":
-		r := w.s3("POST", "/b/"+keys[o.key]+"?uploads", nil, nil)
+		r := w.s3("POST", "/b/"+encKey(keys[o.key])+"?uploads", nil, nil)
 		var ir initResult
 		if r.status != 200 || xml.Unmarshal(r.body, &ir) != nil || ir.UploadId == "" {
 			panic(fmt.Sprintf("create upload: %d %s", r.status, r.body))
@@ -429,7 +471,7 @@ func (rn *runner) exec(o *op) string {
 		hdr, body := streamingRequest(path, q, o.body(), o.cuts, o.tamper)
 		return classify(do(w.router2, "PUT", path+"?"+q, hdr, body))
 	case "MpCopy":
-		hdr := map[string]string{"X-Amz-Copy-Source": "/b/" + keys[o.src]}
+		hdr := map[string]string{"X-Amz-Copy-Source": "/b/" + encKey(keys[o.src])}
 		if o.hasR && rn.objectHasListingPage(keys[o.src]) {
 			o.hasR = false
 		}
@@ -498,7 +540,7 @@ func (rn *runner) final() (objs string, pend string) {
 				alive[segs[1]] = true
 				continue
 			}
-			r := rn.w.env.DoFiler("GET", n.Path, nil)
+			r := rn.w.env.DoFiler("GET", encKey(n.Path), nil)
 			if r.Status != 200 {
 				panic(fmt.Sprintf("read part %s: %d", n.Path, r.Status))
 			}
@@ -512,7 +554,7 @@ func (rn *runner) final() (objs string, pend string) {
 		if n.IsDir {
 			continue
 		}
-		r := rn.w.env.DoFiler("GET", n.Path, nil)
+		r := rn.w.env.DoFiler("GET", encKey(n.Path), nil)
 		if r.Status != 200 {
 			panic(fmt.Sprintf("read %s: %d", n.Path, r.Status))
 		}
@@ -539,6 +581,7 @@ type caseSpec struct {
 	chunk  int // 0: the real autoChunk (1 MiB)
 	ops    []*op
 	kind   string
+	keys   string // the key universe: "", plain, blank, meta
 }
 
 func runCase(out *hx.Out, w *world, c caseSpec) {
@@ -565,6 +608,21 @@ func runCase(out *hx.Out, w *world, c caseSpec) {
 	out.Count(fmt.Sprintf("cfg:limit=%d", c.limit), 1)
 	out.Count(fmt.Sprintf("cfg:inline=%d", c.inline), 1)
 	out.Count(fmt.Sprintf("cfg:chunk=%d", c.chunk), 1)
+	if c.keys != "" {
+		out.Count("keys:"+c.keys, 1)
+	}
+	for _, o := range c.ops {
+		switch o.kind {
+		case "Copy":
+			if hasURLMeta(keys[o.src]) || hasURLMeta(keys[o.key]) {
+				out.Count("copy:url-meta-key", 1)
+			}
+		case "MpCopy":
+			if hasURLMeta(keys[o.src]) {
+				out.Count("copy:url-meta-key", 1)
+			}
+		}
+	}
 	for _, n := range rn.w.env.Snapshot("/buckets/" + bucket) {
 		if !n.IsDir {
 			switch {
@@ -766,7 +824,7 @@ func (t *tracker) existingKey(r *hx.Rng, universe []int) (int, bool) {
 func pickKey(r *hx.Rng, universe []int) int { return universe[r.Intn(len(universe))] }
 
 func allKeys() []int {
-	xs := make([]int, len(keys))
+	xs := make([]int, nNamespaceKeys)
 	for i := range xs {
 		xs[i] = i
 	}
@@ -836,6 +894,39 @@ func (t *tracker) sweep(universe []int) []*op {
 	return ops
 }
 
+// pickUniverse: the prefix-free key universe of a case: plain names, names with blank / '+' / '&' / '='
+// (every route must treat them alike), or those plus names with '%', '?', '#'
+func pickUniverse(r *hx.Rng, c *caseSpec) []int {
+	switch r.Intn(3) {
+	case 0:
+		c.keys = "plain"
+		return cleanKeys
+	case 1:
+		c.keys = "blank"
+		return blankKeys
+	}
+	c.keys = "meta"
+	return metaKeys
+}
+
+// crossRoutes: one key through every way the gateway builds the filer path of a key (HTTP-proxied
+// put / get / delete, gRPC-side batch delete and multipart completion, raw-URL copy), each write
+// followed by a read over another route
+func crossRoutes(k, other int, seed uint64) []*op {
+	put := func(k int, s uint64, size int) *op { return &op{kind: "Put", key: k, seed: seed + s, size: size} }
+	get := func(k int) *op { return &op{kind: "Get", key: k} }
+	return []*op{
+		put(k, 1, 7), get(k), {kind: "BatchDel", ks: []int{k}}, get(k), // put -> batch delete -> get
+		{kind: "MpCreate", key: k}, {kind: "MpPut", u: 0, n: 2, seed: seed + 2, size: 5}, {kind: "MpPut", u: 0, n: 1, seed: seed + 3, size: 4},
+		{kind: "MpComplete", u: 0, ns: []int{1, 2}}, get(k), {kind: "Get", key: k, r: rng{kind: "closed", a: 2, b: 6}}, // complete -> get
+		{kind: "Copy", src: k, key: other}, get(other), // completed -> copy -> get
+		{kind: "Del", key: k}, get(k), // completed -> single delete -> get
+		put(k, 4, 6), {kind: "MpCreate", key: other}, {kind: "MpCopy", u: 1, n: 1, src: k}, {kind: "MpComplete", u: 1, ns: []int{1}}, get(other), // put -> part copy -> complete -> get
+		{kind: "PutS", key: k, seed: seed + 5, size: 9, cuts: []int{4}}, {kind: "Copy", src: other, key: k}, get(k), // streaming put, copy onto the key
+		{kind: "BatchDel", ks: []int{other, k}}, get(k), get(other),
+	}
+}
+
 func genCase(r *hx.Rng) caseSpec {
 	t := newTracker(r)
 	c := caseSpec{limit: 100000, inline: 0}
@@ -857,7 +948,7 @@ func genCase(r *hx.Rng) caseSpec {
 			c.inline = r.PickInt([]int{8, 32, 100})
 		}
 		c.chunk = r.PickInt(chunkSizes)
-		universe := cleanKeys
+		universe := pickUniverse(r, &c)
 		for i, n := 0, r.Range(0, 2); i < n; i++ {
 			o := &op{kind: "Put", key: pickKey(r, universe)}
 			t.bodyOp(r, o)
@@ -939,10 +1030,11 @@ func genCase(r *hx.Rng) caseSpec {
 			c.inline = r.PickInt([]int{8, 32, 100})
 		}
 		c.chunk = r.PickInt(chunkSizes)
+		universe := pickUniverse(r, &c)
 		for i, n := 0, r.Range(3, 12); i < n; i++ {
-			add(t.objOp(r, cleanKeys))
+			add(t.objOp(r, universe))
 		}
-		for _, o := range t.sweep(cleanKeys) {
+		for _, o := range t.sweep(universe) {
 			add(o)
 		}
 	default:
@@ -1019,6 +1111,22 @@ func witnesses() []caseSpec {
 		{limit: 100000, chunk: 4, kind: "witness-multichunk", ops: []*op{{kind: "MpCreate", key: 6}, part(0, 2, 121, 10), part(0, 1, 122, 3), part(0, 7, 123, 0), part(0, 10000, 124, 8),
 			{kind: "MpList", u: 0}, complete(0, 1, 2, 7, 10000), get(6), {kind: "Get", key: 6, r: rng{kind: "closed", a: 2, b: 12}},
 			{kind: "Get", key: 6, r: rng{kind: "suffix", a: 9}}, {kind: "Get", key: 6, r: rng{kind: "from", a: 7}}}},
+		// 13: finding 7: CopyObject / UploadPartCopy paste the raw key into the filer URL: a source "t?u" reads "t",
+		// a source "x%20y" reads "x y" (missing here: refused), a destination "v#w" is stored as "v", "q%zz" is no URL
+		{limit: 100000, kind: "witness-copy-raw-key", keys: "meta", ops: []*op{put(14, 131, 4), put(13, 132, 6), {kind: "Copy", src: 13, key: 6}, get(6),
+			put(11, 133, 5), {kind: "Copy", src: 11, key: 2}, get(2), {kind: "Copy", src: 14, key: 15}, get(15),
+			{kind: "MpCreate", key: 6}, {kind: "MpCopy", u: 0, n: 1, src: 13}, {kind: "MpCopy", u: 0, n: 2, src: 17}, {kind: "MpList", u: 0}, complete(0, 1), get(6),
+			put(17, 134, 3), {kind: "Copy", src: 17, key: 2}, {kind: "Copy", src: 14, key: 17}, get(17), get(2)}},
+		// 14..17: keys with blank / '+' / '&' / '=' through every route (must meet the specification exactly)
+		{limit: 100000, kind: "cross-routes", keys: "blank", ops: crossRoutes(9, 10, 140)},
+		{limit: 100000, chunk: 4, kind: "cross-routes", keys: "blank", ops: crossRoutes(10, 9, 150)},
+		{limit: 100000, chunk: 3, kind: "cross-routes", keys: "blank", ops: crossRoutes(12, 6, 160)},
+		{limit: 100000, kind: "cross-routes", keys: "blank", ops: crossRoutes(16, 9, 170)},
+		// 18..21: keys with '%', '?', '#' through every route (the copies: finding 7)
+		{limit: 100000, kind: "cross-routes-meta", keys: "meta", ops: crossRoutes(11, 9, 180)},
+		{limit: 100000, chunk: 5, kind: "cross-routes-meta", keys: "meta", ops: crossRoutes(13, 14, 190)},
+		{limit: 100000, kind: "cross-routes-meta", keys: "meta", ops: crossRoutes(15, 6, 200)},
+		{limit: 100000, kind: "cross-routes-meta", keys: "meta", ops: crossRoutes(17, 11, 210)},
 	}
 }
 
@@ -1054,7 +1162,7 @@ func bigCase(r *hx.Rng) caseSpec {
 func main() {
 	out := hx.Flags("C28", 300)
 	out.Rule = "histories of S3 requests on one bucket through the real gateway router over a real in-process filer (leveldb2) with a loopback volume stand-in: " +
-		"first 13 deterministic witnesses of the known findings (k=0..4, 6), of the repaired defects (incl. former finding 5: part numbers 0 / 10001 must be refused) and of multi-chunk parts, then per case a filer chunk size from {1 MiB through the real autoChunk, 3, 5, 8, 16, 24 bytes through the hook VerifC28PutWithChunkSize around the real doPutAutoChunk} so that most bodies become 2..20 chunks, and one of: multipart (1-2 uploads over prefix-free keys, part numbers from {1,2,9,10,999,1000,1001,9999,10000} with a small per-case pool so that overwrites and the 10000 mix happen, in 1/8 of the cases also one of {0,10001,100000} (must be refused), bodies 0..64 bytes, streaming-signed parts incl. a bad chunk signature, UploadPartCopy with ranges, ListParts, abort, CompleteMultipartUpload with a real <Part> list in the body (5/6: all parts the specification holds, ascending; else a subset, a swap, a never-uploaded number, a duplicate or an empty list), requests after completion; dirListLimit in {100000,1000,1..3}, saveToFilerLimit in {0,8,32,100}), " +
+		"first 22 deterministic cases: witnesses of the known findings (k=0..4, 6, 7), cross-route sequences (put -> batch delete -> get, multipart complete -> get / ranged get, copy -> get, single delete -> get, put -> part copy -> complete -> get, streaming put, copy onto the key) on keys with blank, '+', '&', '=', '%', '?', '#', witnesses of the repaired defects (incl. former finding 5: part numbers 0 / 10001 must be refused) and of multi-chunk parts, then per case a filer chunk size from {1 MiB through the real autoChunk, 3, 5, 8, 16, 24 bytes through the hook VerifC28PutWithChunkSize around the real doPutAutoChunk} so that most bodies become 2..20 chunks, and one of: multipart (1-2 uploads over a prefix-free key universe chosen per case from {plain names; names with blank / + / & / = ; those plus names with % ? # (x%20y next to x y, t?u next to t, v#w, q%zz)}, every key sent percent-encoded in the request line and in X-Amz-Copy-Source and XML-escaped in the batch delete, part numbers from {1,2,9,10,999,1000,1001,9999,10000} with a small per-case pool so that overwrites and the 10000 mix happen, in 1/8 of the cases also one of {0,10001,100000} (must be refused), bodies 0..64 bytes, streaming-signed parts incl. a bad chunk signature, UploadPartCopy with ranges, ListParts, abort, CompleteMultipartUpload with a real <Part> list in the body (5/6: all parts the specification holds, ascending; else a subset, a swap, a never-uploaded number, a duplicate or an empty list), requests after completion; dirListLimit in {100000,1000,1..3}, saveToFilerLimit in {0,8,32,100}), " +
 		"objects (PUT / streaming PUT / copy / GET with closed, open, suffix and unsatisfiable ranges / DELETE / batch delete (1/4 with a repeated key) over prefix-free keys), namespace (the same over keys that are path prefixes of each other: a, a/b, a/b/c, d, d/e, ab), case 13 of shard 0 and every 400th case a 1 MiB multi-chunk upload (a part of 1 MiB + tail = two 1 MiB filer chunks between two small parts, ranges across the chunk and part boundaries). " +
 		"non-trivial = some GET returned a non-empty body; distinct = canonical configuration + op list"
 	w := newWorld()
